@@ -528,30 +528,6 @@ example : Frame (⟨1, 0, 0⟩ : Vec ℝ) ⟨0, 1, 0⟩ ∧ ([0, 1 / 4, 1 / 2, 1
   · simp only [List.pairwise_cons, List.mem_cons, List.not_mem_nil, forall_eq_or_imp, or_false]
     norm_num
 
-/-- the samples of the model's `np.linspace(a, b, N + 1)` are ascending for `a ≤ b` -/
-theorem linspace_sorted (a b : Rat) (hab : a ≤ b) (N : Nat) : (linspace a b (N + 1)).Pairwise (· ≤ ·) := by
-  rw [linspace_eq, List.pairwise_append]
-  have hstep : 0 ≤ (b - a) / (N : Rat) := div_nonneg (sub_nonneg.mpr hab) (Nat.cast_nonneg N)
-  refine ⟨?_, by simp, ?_⟩
-  · rw [List.pairwise_map]
-    apply List.Pairwise.imp _ (List.pairwise_lt_range (n := N))
-    intro i j hij
-    unfold sample
-    have : (i : Rat) ≤ (j : Rat) := by exact_mod_cast le_of_lt hij
-    nlinarith
-  · intro x hx y hy
-    simp only [List.mem_singleton] at hy
-    subst hy
-    obtain ⟨i, hi, rfl⟩ := List.mem_map.mp hx
-    have hiN : i < N := List.mem_range.mp hi
-    have hN : (0 : Rat) < N := by exact_mod_cast (by omega : 0 < N)
-    have hiN' : (i : Rat) ≤ N := by exact_mod_cast le_of_lt hiN
-    unfold sample
-    have e : y = a + (N : Rat) * ((y - a) / (N : Rat)) := by field_simp; ring
-    have : (i : Rat) * ((y - a) / (N : Rat)) ≤ (N : Rat) * ((y - a) / (N : Rat)) :=
-      mul_le_mul_of_nonneg_right hiN' hstep
-    linarith
-
 open CBV.C08 (Frame circAt) in
 /-- … hence the polyline of `AnalyticCurve.get_length` for a `CircleCurve` (the model's `linspace` with **any** sample count ≥ 2, read
     in ℝ) never exceeds the arc length `r·(b − a)` -/
@@ -662,14 +638,6 @@ theorem T_C16_tie_discrete (x : Rat) :
   refine ⟨by decide, by decide, by decide, by decide, by decide, by decide, by decide, ?_⟩
   unfold clip01
   simp [chain, cmpOp]
-
-theorem clip01_bounds (x : Rat) : 0 ≤ clip01 x ∧ clip01 x ≤ 1 := by
-  unfold clip01
-  split
-  · exact ⟨le_refl _, by norm_num⟩
-  · split
-    · exact ⟨by norm_num, le_refl _⟩
-    · constructor <;> linarith
 
 /-- The **parameter** returned by `LinearInterpolatedCurve.get_closest_param` addresses the projection point: for strictly increasing
     knot parameters (chord-length or evenly spaced), `get_point(get_closest_param(q))` exists, is the clipped projection of `q` on the
